@@ -11,12 +11,14 @@ RULE = ("cases are programs (all enumerated control-flow skeletons to depth 2 (q
         "compiled to human-readable bytecode and EVERY emitted function is analysed over ALL branch outcomes (both successors of "
         "if / while / jmp_not_nil / store_skip): validity predicate = every jump target lies inside the function, execution never "
         "falls off the end, `done` and `jmp_pop n` never close more block frames than are open, two paths reaching one "
-        "instruction carry the same number of open block frames, ret/ret_mod are the only exits; additionally the program is run "
-        "and must not end in STACK MISMATCH. evaluations = functions analysed. Non-trivial = a function with a jmp_pop closing "
+        "instruction carry the same number of open block frames, ret/ret_mod are the only exits; a second fixpoint tracks the "
+        "operand-stack depth as an interval per instruction (calls leave 0 or 1 operand) and reports instructions whose exact "
+        "or minimum operand requirement is DEFINITELY missed, `ret` with more than one operand and unbounded operand growth; "
+        "additionally the program is run and must not end in STACK MISMATCH. evaluations = functions analysed. Non-trivial = a function with a jmp_pop closing "
         ">= 2 frames or a return below >= 2 open block frames; distinct by instruction-stream hash")
 ASSUMPTIONS = ["opcode effects on block frames as read from bytecode/src/instruction.rs and Function::run at the pinned commit; "
                "an unknown opcode is treated as frame-neutral fall-through",
-               "operand-stack shapes are not modelled statically (only the dynamic run is observed)"]
+               "operand-stack effects per opcode as in DESIGN.md Appendix C; intervals over-approximate, so only definite misses are reported"]
 
 
 def tokenize(line):
